@@ -305,7 +305,7 @@ EXTRA = {
             "C01_pso_iterate, C01_spiral_iterate, C01_de_iterate, C01_es_iterate, C01_cross_or_climb (in box and feasible for every tape), tied "
             "to /repo by an S-unit replaying every iteration step of real runs (position, draws consumed, constraint evaluations)."),
     "C10": GEN_INIT + " Theorems C10_source_init_warm_start_refines, C10_source_initializer_spec, C10_source_warm_start_in_init_list (C10's list-membership theorem for the generated Initializer). ALSO, harness/translate_pop.py re-translates split() of base_population_optimizer.py into generated/PopGen.v; theorem C10_source_split_round_robin (proofs/PopTie.v).",
-    "C02": (GEN_INIT + " Theorem C02_source_random_inits_feasible." + GEN_CORE + " Theorems C02_source_move_random_feasible, C02_source_move_climb_feasible, C02_source_random_iteration_feasible."
+    "C02": (GEN_INIT + " Theorems C02_source_random_inits_feasible, C02_source_init_positions_feasible." + GEN_CORE + " Theorems C02_source_move_random_feasible, C02_source_move_climb_feasible, C02_source_random_iteration_feasible."
             " ALSO: C02_pso_iterate, C02_spiral_iterate, C02_de_iterate, C02_cross_or_climb (theories/Pop.v): the emitted position "
             "of the population optimizers' iterate is feasible on every path (first candidate, constraint loop, move_climb fallback, "
             "random restart), tied to /repo by the S-unit replaying every iteration step of real runs under coupled constraints."),
